@@ -99,6 +99,48 @@ func runC13(c *eng.Ctx) {
 			noPrev := eng.CmpEdges(fn, isPrevSubscriber, eng.NilConst, eng.EQ)
 			g, _ := eng.GuardedBy(fn, store, append(append([]eng.Edge{}, prev...), noPrev...))
 			c.Check(w == nil && len(prev) > 0 && g, "previous subscriber closed before the new one is registered", c.Pos(store), "every path with a previous subscriber passes previousSubscriber.sub.Close() before the store", "the new group subscriber is registered while the previous one is still running (path "+w.String()+")")
+			// an entry found in the table is either refused against or closed before being replaced
+			found := eng.BoolEdges(fn, func(v ssa.Value) bool {
+				e, ok := v.(*ssa.Extract)
+				if !ok || e.Index != 1 {
+					return false
+				}
+				lk, ok := e.Tuple.(*ssa.Lookup)
+				return ok && lk.CommaOk && eng.Load(cons, nil)(lk.X)
+			}, true)
+			// value flow instead of paths (the later `previousSubscriber != nil` test is correlated with this one): the variable
+			// that decides about Close must not be nil on any path that found an entry
+			bad := ""
+			nPhi := 0
+			eng.Instrs(fn, func(in ssa.Instruction) {
+				ph, ok := in.(*ssa.Phi)
+				if !ok || !isPrevSubscriber(ph) {
+					return
+				}
+				nPhi++
+				for i, e := range ph.Edges {
+					if !eng.NilConst(e) {
+						continue
+					}
+					pred := ph.Block().Preds[i]
+					q3 := &eng.PathQuery{Fn: fn, FromEdges: found, TargetEdge: func(ed eng.Edge) bool { return ed.From == pred && ed.To() == ph.Block() }}
+					if w3 := q3.Find(); w3 != nil {
+						bad = w3.String()
+					}
+					for _, fe := range found {
+						if fe.From == pred && fe.To() == ph.Block() {
+							bad = fe.String()
+						}
+					}
+				}
+			})
+			c.Check(bad == "" && len(found) > 0 && nPhi > 0, "an existing group subscriber is never silently overwritten", c.Pos(store), "on every path that found an entry for the group, previousSubscriber is that entry (so it is closed before the store) or the call is refused", "when a subscriber of the group already exists, previousSubscriber can stay nil (path "+bad+"): the new subscriber is registered without the old one being closed and two members of the group consume the partition at the same time")
+			// what is closed is the subscription of the entry that was found
+			okClose := false
+			if f, b := eng.FieldRead(closes[0].Common().Args[0]); f != nil && f.Name() == "sub" && isPrevSubscriber(b) {
+				okClose = true
+			}
+			c.Check(okClose, "the subscription closed is the previous subscriber's", c.Pos(closes[0].(ssa.Instruction)), "previousSubscriber.sub.Close()", "Close is not applied to the previous subscriber's subscription")
 			// the entry stored carries the new subscription and epoch
 			okVal := false
 			if al, ok := store.Value.(*ssa.Alloc); ok {
@@ -123,7 +165,7 @@ func runC13(c *eng.Ctx) {
 					nMU++
 				}
 			})
-			bad := ""
+			bad = ""
 			for _, r := range eng.Returns(fn) {
 				rv := eng.RetVals(r)
 				if len(rv) == 2 && !eng.NilConst(rv[1]) {
@@ -138,7 +180,7 @@ func runC13(c *eng.Ctx) {
 			g2, _ := eng.GuardedBy(fn, store, eng.CmpEdges(fn, eng.AnyV, eng.StrConst(""), eng.NE))
 			c.Check(g2, "only group subscribers are registered", c.Pos(store), "store under groupID != \"\"", "a non-group subscriber is written into the group table")
 		}
-		c.Floor(4)
+		c.Floor(6)
 	}
 
 	// ---- R13.5 acquire/release pairing
